@@ -2,26 +2,17 @@
 From Coq Require Import Permutation Sorted.
 From FV Require Import Base SortLib DedupeModel DedupeProofs DedupeProofs3 Props_C04.
 Open Scope Z_scope.
-Check C04_after_report_partial : forall D members op c sm glen ts tsc,
+Check C04_full : forall D members op c sm glen ts tsc,
+  NoDup (map (fun m => mpath (hbase m)) members) ->
+  mbefore c = Some tsc -> tsc <= ts ->
+  stamped_before_reads ts members ->
+  (forall m t o, In m members -> In (t, o) (hops m) -> hr m < t) ->
+  hist_safe D members (hist_run D members op c sm glen).
+Check C04_after_report : forall D members op c sm glen ts tsc,
   NoDup (map (fun m => mpath (hbase m)) members) ->
   mbefore c = Some tsc -> tsc <= ts ->
   (forall m t o, In m members -> In (t, o) (hops m) -> ts < t) ->
   hist_safe D members (hist_run D members op c sm glen).
-Check C04_safe : forall D members op c sm glen ts tsc,
-  NoDup (map (fun m => mpath (hbase m)) members) ->
-  mbefore c = Some tsc -> tsc <= ts ->
-  (forall m, In m members -> ts <= hr m) ->
-  (forall m t o, In m members -> In (t, o) (hops m) -> hr m < t) ->
-  hist_safe D members (hist_run D members op c sm glen).
-Check C04_full_except_K1 : forall D members op c sm glen ts tsc,
-  NoDup (map (fun m => mpath (hbase m)) members) ->
-  mbefore c = Some tsc -> tsc <= ts ->
-  (forall m t o, In m members -> In (t, o) (hops m) -> hr m < t) ->
-  ~ K1 members ts ->
-  hist_safe D members (hist_run D members op c sm glen).
-Check C04_K1_witness : K1 k1_members 20 /\
-  (forall m t o, In m k1_members -> In (t, o) (hops m) -> hr m < t) /\
-  ~ hist_safe k1_D k1_members (hist_run k1_D k1_members OpRemove k1_cfg (fun _ _ => true) 4).
 Check C04_trunc_le : forall t, trunc_ms t <= t.
 Check C04_missing_skips_group : forall op c sm glen ms,
   In None ms -> group_cmds (dedupe_group op c sm glen ms) = [].
